@@ -395,3 +395,24 @@ def r8(ctx, R):
 def r9(ctx, R):
     from .. import memo
     memo.check(ctx, R, lambda m: m.relpath == SH, 'helpers/spectral_helper.py')
+
+
+@rule('C17', 'C17.R10', 'scale-free helpers: (a) eliminate_zeros removes EXACT zeros only - no magnitude threshold, operators on long intervals have legitimately tiny entries ((2/L)^p); (b) every Fourier operator takes its wavenumbers from get_wavenumbers(), the one place where the 2 pi / L scaling is applied - no second fftfreq in the class', floor=3)
+def r10(ctx, R):
+    repo = ctx.repo
+    fn = repo.func(SH, 'SpectralHelper.eliminate_zeros')
+    w = f'{SH}:SpectralHelper.eliminate_zeros'
+    R.fn(w)
+    thr = [f'line {x.lineno}: {ast.unparse(x)[:70]}' for x in ast.walk(fn) if isinstance(x, ast.Compare) or (isinstance(x, ast.Call) and ast.unparse(x.func).split('.')[-1] in ('isclose', 'allclose', 'abs', 'absolute'))]
+    R.check(not thr, 'SpectralHelper.eliminate_zeros :: no magnitude threshold', w, 'only A.eliminate_zeros() (exact zeros)', thr)
+    ci = repo.cls(SH, 'FFTHelper')
+    src = []
+    for name, f in ci.methods.items():
+        for x in ast.walk(f):
+            if isinstance(x, ast.Attribute) and x.attr in ('fftfreq', 'rfftfreq'):
+                src.append(name)
+    R.check(sorted(set(src)) == ['get_wavenumbers'], 'FFTHelper :: fftfreq is called in get_wavenumbers only (single source of the scaled wavenumbers)', f'{SH}:FFTHelper', ['get_wavenumbers'], sorted(set(src)))
+    users = sorted(name for name, f in ci.methods.items() if name != 'get_wavenumbers' and any(isinstance(c, ast.Call) and ast.unparse(c.func) == 'self.get_wavenumbers' for c in ast.walk(f)))
+    for name in ('get_differentiation_matrix', 'get_integration_matrix'):
+        R.fn(f'{SH}:FFTHelper.{name}')
+        R.check(name in users, f'FFTHelper.{name} :: built from self.get_wavenumbers()', f'{SH}:FFTHelper.{name}', 'a call of self.get_wavenumbers()', users)
